@@ -15,7 +15,7 @@ import (
 // documentation leaves freedom the reference returns alternatives (see the comments at each command).
 
 func init() {
-	register("C17", familyCheck{&familySpec{Prop: "C17", Kinds: []string{"zset"}, Ref: refZset, Random: zRandom, Sig: zSig,
+	register("C17", familyCheck{&familySpec{Prop: "C17", Kinds: []string{"zset"}, Ref: refZset, Random: zRandom, Sig: zSig, LooseDeadlines: true,
 		Title: "refZset (a Go map member->score listed by score then member: ZADD flag table, ZINCRBY, removal by member/rank/score/lex/pop, rank and count queries, ZRANGE by index/score/lex with REV and LIMIT, weighted ZUNION/ZINTER/ZDIFF and STORE forms; ZRANDMEMBER judged on size/distinctness/membership)"}})
 }
 
